@@ -489,7 +489,7 @@ func (g *gen) traverse(id int, maxLen int) {
 	fmt.Fprintf(&g.drv, "\t\tvar in []%s\n\t\tif !isNil {\n\t\t\tin = make([]%s, 0, len(ids))\n\t\t}\n\t\tfor _, x := range ids {\n\t\t\tin = append(in, enc_%s(x))\n\t\t}\n", a.typ, a.typ, a.name)
 	fmt.Fprintf(&g.drv, "\t\tf := func(p %s) (%s, error) {\n\t\t\tx := dec_%s(p)\n\t\t\tlog = append(log, x)\n\t\t\treturn enc_%s(mix(0, 0, []int{x})), sentinel(tbl[x])\n\t\t}\n", a.typ, b.typ, a.name, b.name)
 	fmt.Fprintf(&g.drv, "\t\tout, err := %s(f, in)\n\t\tet = tagOf(err)\n", fn)
-	fmt.Fprintf(&g.drv, "\t\tswitch {\n\t\tcase err == nil && len(out) == 0:\n\t\t\tres = \"()\"\n\t\tcase out == nil:\n\t\t\tres = \"nil\"\n\t\tdefault:\n\t\t\tl := make([]int, len(out))\n\t\t\tfor i, v := range out {\n\t\t\t\tl[i] = obs_%s(v)\n\t\t\t}\n\t\t\tres = ints(l)\n\t\t}\n\t\treturn\n\t}\n}\n", b.name)
+	fmt.Fprintf(&g.drv, "\t\tswitch {\n\t\tcase err == nil && len(out) == 0 && out != nil:\n\t\t\tres = \"()\"\n\t\tcase out == nil:\n\t\t\tres = \"nil\"\n\t\tdefault:\n\t\t\tl := make([]int, len(out))\n\t\t\tfor i, v := range out {\n\t\t\t\tl[i] = obs_%s(v)\n\t\t\t}\n\t\t\tres = ints(l)\n\t\t}\n\t\treturn\n\t}\n}\n", b.name)
 	emit := func(ids []int, isNil bool, tbl [][2]int) {
 		ts := make([]string, len(tbl))
 		for i, p := range tbl {
